@@ -1759,6 +1759,14 @@ class BaseProject(object, metaclass=ABCMeta):
                 self.product.get_component_list(ID=ID)[0]
                 for ID in x.placed_component_list
             ]
+            x.input_workplace_list = [
+                self.organization.get_workplace_list(ID=ID)[0]
+                for ID in x.input_workplace_list
+            ]
+            x.output_workplace_list = [
+                self.organization.get_workplace_list(ID=ID)[0]
+                for ID in x.output_workplace_list
+            ]
             for f in x.facility_list:
                 f.assigned_task_list = [
                     self.workflow.get_task_list(ID=ID)[0] for ID in f.assigned_task_list
